@@ -198,8 +198,11 @@ func (g *gen) next(st *appstate.AppState, hdr *types.Header) (txInfo, bool) {
 		p, _ := attachments.CreateTerminateContractAttachment(g.cc.w.Addrs[g.user()].Bytes()).ToBytes()
 		a := c.addr
 		tx = &types.Transaction{Type: types.TerminateContractTx, To: &a, Payload: p}
+		if !g.cc.n.Cfg.Consensus.EnableUpgrade11 {
+			tx.Amount = chainfx_dna(int64(1 + r.Intn(5000)))
+		}
 		desc = "late-terminate-" + cname(c)
-		lateBudget = true
+		lateBudget = c.typ == 2
 		cc := c
 		pd.hook = func(ok bool) {
 			if ok {
@@ -343,6 +346,9 @@ func (g *gen) next(st *appstate.AppState, hdr *types.Header) (txInfo, bool) {
 		p, _ := attachments.CreateTerminateContractAttachment(args...).ToBytes()
 		a := c.addr
 		tx = &types.Transaction{Type: types.TerminateContractTx, To: &a, Payload: p}
+		if !g.cc.n.Cfg.Consensus.EnableUpgrade11 && r.Intn(2) == 0 {
+			tx.Amount = someAmt() // before upgrade 11 a termination may carry an amount (it is not debited, blockchain.go:1697)
+		}
 		desc = "terminate-" + cname(c)
 		cc := c
 		pd.hook = func(ok bool) {
@@ -665,6 +671,9 @@ func (g *gen) applied(ti txInfo, ap applied, st *appstate.AppState) {
 		}
 		if !dup {
 			g.contracts = append(g.contracts, pd.c)
+			if !g.cc.n.Cfg.Consensus.EnableUpgrade11 && (pd.c.typ == 1 || pd.c.typ == 5) && g.r.Intn(2) == 0 {
+				g.lateTerm = pd.c // a fresh lock (no balance): its owner can terminate it right away
+			}
 		}
 	}
 	if pd.hook != nil {
